@@ -2,6 +2,7 @@ import ScrapliModel.Channel.Chan
 import ScrapliModel.Channel.Drv
 import ScrapliModel.Channel.Rx
 import ScrapliProps.C01Platform
+import ScrapliProps.C02DecorCheck
 open Scrapli Scrapli.Chan
 
 /-! Line protocol (fields separated by one blank):
@@ -18,7 +19,8 @@ open Scrapli Scrapli.Chan
   then ` W=<writes hexlist> A=<unread hex> H=<held-back hex>` (`sar=<raw>,<processed>` for the timed op;
   `sc:<strip><stop>:<failed_when_contains hexlist>:<commands hexlist>` -> `sc=<result>/<failed 0|1>,…` for the driver-level send_commands).
   `dev <prompt> <trail> <cmd=out|…> <writes hexlist>` -> what `LineDev.onWrite` prints for each write;
-  `linep iosxe <hex>` -> the line predicate of ScrapliProps/C01Platform.lean;  `ansi <hex>` -> chanRead of one chunk;  `ansih <held hex> <chunk hex>` -> chanReadH (output, held);  `prb <depth> <hex>` -> processReadBuf. -/
+  `linep iosxe <hex>` -> the line predicate of ScrapliProps/C01Platform.lean;  `ansi <hex>` -> chanRead of one chunk;  `ansih <held hex> <chunk hex>` -> chanReadH (output, held);  `prb <depth> <hex>` -> processReadBuf;
+  `decor <plain hex> <decorated hex>` -> `decorOK` of ScrapliProps/C02DecorCheck.lean (1|0). -/
 
 def mkPat (r : Rx.Rx) : Pat := { search := Rx.searchB r, first := Rx.firstMatch r, sub := Rx.sub r }
 def neverPat : Pat := { search := fun _ => false, first := fun _ => none, sub := id }
@@ -132,6 +134,11 @@ def handleLine (line : String) : String :=
         (x.1, acc.2 ++ [x.2])) ([], [])
       Hex.encodeList r.2
     | _, _, _, _ => "bad-op"
+  | ["decor", ph, dh] =>
+    -- is the burst `dh` the plain output `ph` decorated within the hypothesis `Decorates` of the session theorems? (validated check)
+    match Hex.decode ph, Hex.decode dh with
+    | some p, some d => if decorOK p d then "1" else "0"
+    | _, _ => "bad-op"
   | ["linep", "iosxe", h] => match Hex.decode h with | some b => (if iosxeP b then "1" else "0") | none => "bad-op"
   | ["prb", d, h] =>
     match d.toNat?, Hex.decode h with
